@@ -7,8 +7,11 @@ Model of `bpp::Parameter` (src/Bpp/Numeric/Parameter.{h,cpp}) and of
 Modelled: value, precision, the constraint (an `IntervalConstraint` or none), the dynamic type
 (plain / auto-correcting), every member that writes one of them, and histories of such calls
 over a store of parameter objects.
-Not modelled: the name and the listeners (C03); a constraint object mutated in place while it is
-attached (the `shared_ptr` is modelled by value); NaN / infinite parameter values (an
+The constraint is held *by value* here; `BppModel/ParamShared.lean` is the same class with the
+constraint as the `shared_ptr` to a mutable object it is in the code (every member there is the
+member of this file applied to the dereferenced view; the two are related by a simulation,
+BppProofs/Props/C01Shared.lean).
+Not modelled: the name and the listeners (C03); NaN / infinite parameter values (an
 auto-correction whose limit is infinite ends in the explicit outcome `PErr.nonfinite`).
 -/
 namespace Bpp
@@ -96,6 +99,12 @@ def setValueAuto (p : Param α) (v : α) : Except PErr (Param α) :=
           | .ok p' => .ok p'
           | .error _ => p.setValueBase (limit - Constants.TINY)
       | _ => .error .nonfinite
+
+/-- does `AutoParameter::setValue(v)` write a "Constraint match" line to its message handler
+(AutoParameter.cpp:52-60)?  Exactly when the first plain `setValue` raises; the later attempts
+are silent. -/
+def autoReports (p : Param α) (v : α) : Bool :=
+  p.auto && (match p.setValueBase v with | .error _ => true | .ok _ => false)
 
 /-- virtual `setValue` -/
 def setValue (p : Param α) (v : α) : Except PErr (Param α) :=
